@@ -18,5 +18,26 @@ Theorem C06_only_revival_leaves_error :
     In (ETrans t o n at_ site) (trace (run ns c0 ops)) -> is_completed o = true -> n = o \/ (o = SError /\ n = SRunning).
 Proof. exact terminal_final. Qed.
 
+(* a catch takes the error of a task at most once: no run revives a task twice, and a task that was
+   revived carries the mark that makes every later catch of it a no-op (hook.rs $is_catch_processed) *)
+Theorem C06_caught_at_most_once :
+  forall ns c0 ops t l1 l2 l3 a1 s1 a2 s2,
+    trace (run ns c0 ops) = l1 ++ ETrans t SError SRunning a1 s1 :: l2 ++ ETrans t SError SRunning a2 s2 :: l3 -> False.
+Proof. exact revived_at_most_once. Qed.
+Theorem C06_caught_is_marked :
+  forall ns c0 ops t a s,
+    In (ETrans t SError SRunning a s) (trace (run ns c0 ops)) -> t_catch_done (tk (run ns c0 ops) t) = true.
+Proof. exact revived_is_marked. Qed.
+(* non-vacuity: an error with code 1 on an act under a step that catches it; the step is revived once *)
+Example C06_example :
+  let ns := [ Build_node 0 KWorkflow 0 [(ONormal, 1)] None None false [] dspec [] [] [] [] [] [] false;
+              Build_node 1 KStep 1 [(ONormal, 2)] None None false [] dspec [None] [] [] [] [] [] false;
+              Build_node 2 KAct 2 [] None None false [] dspec [] [] [] [] [] [] false ] in
+  let e := run ns 1000 [ODrain; OAct 2 (AError (Some 1)) []; ODrain] in
+  existsb (fun x => match x with ETrans 1 SError SRunning _ 19 => true | _ => false end) (trace e) = true /\
+  t_catch_done (tk e 1) = true /\ t_err (tk e 1) = None.
+Proof. vm_compute. auto. Qed.
 Print Assumptions C06_error_code_only_in_error_state.
+Print Assumptions C06_caught_at_most_once.
+Print Assumptions C06_caught_is_marked.
 Print Assumptions C06_only_revival_leaves_error.
